@@ -18,6 +18,7 @@ import (
 	"github.com/verily-src/fhirpath-go/fhirpath"
 	"github.com/verily-src/fhirpath-go/fhirpath/compopts"
 	"github.com/verily-src/fhirpath-go/fhirpath/evalopts"
+	"github.com/verily-src/fhirpath-go/fhirpath/internal/funcs"
 	"github.com/verily-src/fhirpath-go/fhirpath/system"
 	"github.com/verily-src/fhirpath-go/internal/fhir"
 	"google.golang.org/protobuf/proto"
@@ -240,6 +241,9 @@ func runC03(c *Ctx) {
 			nameColl = o.Coll
 		}
 		targeted := c03Targeted(rn)
+		if ri == 0 {
+			targeted = append(targeted, c03KindPrograms()...)
+		}
 		if _, ok := built[ri]; ok {
 			targeted = append(builtPrograms, targeted...)
 		}
@@ -264,13 +268,15 @@ func runC03(c *Ctx) {
 			ec := withCapacity(system.Collection{}, 4)
 			nc := withCapacity(system.Collection{system.Integer(1), fhir.String("s")}, 3)
 			n := withCapacity(nameColl, 2)
+			pk := withCapacity(primitiveKinds(), 3)
 			before := pristine
 			snapEC, snapNC, snapN := snapshotSlice(ec), snapshotSlice(nc), snapshotSlice(n)
+			snapPK, pkBytes := snapshotSlice(pk), collBytes(pk)
 			clone := pristineClone
 			exprBefore := deepDump(e)
 			o := safeEval(func() (system.Collection, error) {
 				return e.Evaluate(inSlice, evalopts.EnvVariable("r", res), evalopts.EnvVariable("n", n), evalopts.EnvVariable("ec", ec),
-					evalopts.EnvVariable("nc", nc), evalopts.EnvVariable("e", system.Collection{}))
+					evalopts.EnvVariable("nc", nc), evalopts.EnvVariable("e", system.Collection{}), evalopts.EnvVariable("pk", pk))
 			})
 			c.Observe(src, true)
 			switch {
@@ -284,8 +290,15 @@ func runC03(c *Ctx) {
 			c.Law(bytes.Equal(before, detBytes(res)) && proto.Equal(clone, res), "C03/resource-mutated", "evaluation leaves the input resource unchanged", rn+" :: "+src, "serialisation differs")
 			c.Law(sameSnapshot(snapEC, ec), "C03/env-backing-array", "evaluation leaves the backing array of an environment collection unchanged", "%ec (empty, spare capacity) :: "+src, fmt.Sprint(ec[:cap(ec)]))
 			c.Law(sameSnapshot(snapNC, nc), "C03/env-backing-array", "evaluation leaves the backing array of an environment collection unchanged", "%nc :: "+src, fmt.Sprint(nc[:cap(nc)]))
+			c.Law(sameSnapshot(snapPK, pk) && collBytes(pk) == pkBytes, "C03/env-backing-array", "evaluation leaves the backing array of an environment collection unchanged", "%pk (one element of every primitive kind) :: "+src, fmt.Sprint(pk[:cap(pk)]))
 			c.Law(sameSnapshot(snapN, n), "C03/env-backing-array", "evaluation leaves the backing array of an environment collection unchanged", "%n :: "+src, "changed")
 			c.Law(len(inSlice) == 1 && inSlice[0] == res && inSlice[:4][1] == nil, "C03/input-slice", "the input slice is unchanged", src, "changed")
+			// an input slice with a hole (a caller error: the evaluation may fail, even crash) is left as it was
+			if pi%16 == 0 {
+				holed := []fhir.Resource{res, nil, res, nil}
+				_, _, _ = safeErr(func() error { _, err := e.Evaluate(holed); return err })
+				c.Law(len(holed) == 4 && holed[0] == res && holed[1] == nil && holed[2] == res && holed[3] == nil, "C03/input-slice", "the input slice is unchanged", src+" on the input [r, nil, r, nil]", "changed")
+			}
 			c.Law(deepDump(e) == exprBefore, "C03/expression-mutated", "evaluation leaves the compiled expression unchanged", rn+" :: "+src, "a field reachable from the Expression changed")
 			// result elements are the input's own nodes (or synthesised strings / unpacked contained copies)
 			if o.Err == nil && !o.Panicked && !hasContained {
@@ -300,6 +313,15 @@ func runC03(c *Ctx) {
 					if nodes[m] || m == proto.Message(nc[1].(proto.Message)) {
 						continue
 					}
+					fromPK := false
+					for _, x := range pk {
+						if pm, ok := x.(proto.Message); ok && pm == m {
+							fromPK = true
+						}
+					}
+					if fromPK {
+						continue
+					}
 					c.Law(false, "C03/foreign-element", "FHIR elements in a result are the input's own nodes", rn+" :: "+src, fmt.Sprintf("%T", m))
 					break
 				}
@@ -309,4 +331,53 @@ func runC03(c *Ctx) {
 			c.meta.Dist["node:"+k] += v
 		}
 	}
+}
+
+// primitiveKinds returns a collection holding one FHIR element of every primitive kind (and a complex
+// one, and System values): whatever an implementation converts "in place" shows up here.
+func primitiveKinds() system.Collection {
+	return system.Collection{fhir.Boolean(true), fhir.Boolean(false), fhir.String("s"), fhir.Integer(1), &dtpb.Decimal{Value: "1.50"}, fhir.Code("c"),
+		&dtpb.Date{ValueUs: 1600000000000000, Timezone: "UTC", Precision: dtpb.Date_DAY}, &dtpb.DateTime{ValueUs: 1600000000000000, Timezone: "+05:30", Precision: dtpb.DateTime_SECOND},
+		&dtpb.Time{ValueUs: 3600000000, Precision: dtpb.Time_SECOND}, &dtpb.Quantity{Value: &dtpb.Decimal{Value: "2"}, Unit: fhir.String("mg")}, &dtpb.PositiveInt{Value: 3}, &dtpb.UnsignedInt{Value: 0},
+		fhir.URI("u"), &dtpb.Id{Value: "i"}, &dtpb.Instant{ValueUs: 1600000000000000, Timezone: "Z", Precision: dtpb.Instant_MILLISECOND}, &dtpb.HumanName{Family: fhir.String("f")},
+		system.Boolean(true), system.Integer(2), system.String("t")}
+}
+
+func collBytes(c system.Collection) string {
+	var b strings.Builder
+	for _, it := range c[:cap(c)] {
+		if m, ok := it.(proto.Message); ok && m != nil {
+			b.Write(detBytes(m))
+			b.WriteString("|")
+		} else {
+			fmt.Fprintf(&b, "%T:%v|", it, it)
+		}
+	}
+	return b.String()
+}
+
+// c03KindPrograms applies every function of the table (0 and 1 argument) to %pk and to sub-slices of it.
+func c03KindPrograms() []string {
+	table := funcs.Clone()
+	var names []string
+	for n := range table {
+		names = append(names, n)
+	}
+	sort.Strings(names)
+	var out []string
+	for _, fn := range names {
+		f := table[fn]
+		for _, recv := range []string{"%pk", "%pk.tail()", "%pk.take(4)", "%pk.skip(1).take(3)", "%pk.take(2)", "%pk.skip(2).take(1)"} {
+			if f.MinArity == 0 {
+				out = append(out, recv+"."+fn+"()")
+			}
+			if f.MinArity <= 1 && f.MaxArity >= 1 {
+				out = append(out, recv+"."+fn+"($this)", recv+"."+fn+"(true)", recv+"."+fn+"(%pk)", recv+"."+fn+"(1)")
+			}
+		}
+	}
+	for _, op := range []string{"=", "!=", "~", "<", "|", "in", "contains", "&", "+", "and", "or"} {
+		out = append(out, "%pk "+op+" %pk", "%pk.take(1) "+op+" %pk.skip(1).take(1)", "%pk.skip(2).take(1) "+op+" 's'", "%pk.select($this "+op+" $this)")
+	}
+	return out
 }
